@@ -16,3 +16,221 @@ pub use crate::peer_handler::PeerHandler;
 pub use crate::serializer::Serializer;
 pub use crate::session::Status;
 pub use crate::utils::hash_to_string;
+
+use std::cell::{Cell, RefCell};
+use std::pin::Pin;
+use std::task::{Context, Poll};
+use tokio::io::{AsyncRead, AsyncWrite, DuplexStream, ReadBuf};
+use tokio::net::TcpStream;
+
+/// Socket of a `Connection` when the feature is on: real TCP or an in-memory duplex pipe.
+pub enum Sock {
+    Tcp(TcpStream),
+    Mem(DuplexStream),
+}
+
+impl AsyncRead for Sock {
+    fn poll_read(
+        self: Pin<&mut Self>,
+        cx: &mut Context<'_>,
+        buf: &mut ReadBuf<'_>,
+    ) -> Poll<std::io::Result<()>> {
+        match self.get_mut() {
+            Sock::Tcp(s) => Pin::new(s).poll_read(cx, buf),
+            Sock::Mem(s) => Pin::new(s).poll_read(cx, buf),
+        }
+    }
+}
+
+impl AsyncWrite for Sock {
+    fn poll_write(
+        self: Pin<&mut Self>,
+        cx: &mut Context<'_>,
+        buf: &[u8],
+    ) -> Poll<std::io::Result<usize>> {
+        match self.get_mut() {
+            Sock::Tcp(s) => Pin::new(s).poll_write(cx, buf),
+            Sock::Mem(s) => Pin::new(s).poll_write(cx, buf),
+        }
+    }
+
+    fn poll_flush(self: Pin<&mut Self>, cx: &mut Context<'_>) -> Poll<std::io::Result<()>> {
+        match self.get_mut() {
+            Sock::Tcp(s) => Pin::new(s).poll_flush(cx),
+            Sock::Mem(s) => Pin::new(s).poll_flush(cx),
+        }
+    }
+
+    fn poll_shutdown(self: Pin<&mut Self>, cx: &mut Context<'_>) -> Poll<std::io::Result<()>> {
+        match self.get_mut() {
+            Sock::Tcp(s) => Pin::new(s).poll_shutdown(cx),
+            Sock::Mem(s) => Pin::new(s).poll_shutdown(cx),
+        }
+    }
+}
+
+/// Observation delivered synchronously to the harness' sink (same thread, in program order).
+#[derive(Debug, Clone)]
+pub enum VerifEvent {
+    /// `Connection::send_msg` is about to write `bytes` on the connection to `addr`.
+    Send { seq: u64, addr: String, bytes: Vec<u8> },
+    /// `Connection::recv_frame` found no complete frame and is about to wait for more bytes
+    /// while retaining `buffered` bytes.
+    RecvWait { seq: u64, addr: String, buffered: usize },
+    /// The manager finished handling one event; `after` is its state at that point.
+    Manager {
+        seq: u64,
+        kind: &'static str,
+        addr: String,
+        arg: Option<usize>,
+        text: String,
+        after: crate::session::verif_hooks::Snapshot,
+    },
+}
+
+thread_local! {
+    static SEQ: Cell<u64> = Cell::new(0);
+    static SINK: RefCell<Option<Box<dyn FnMut(VerifEvent)>>> = RefCell::new(None);
+}
+
+/// Next value of the per-thread global sequence counter shared by all event kinds.
+pub fn next_seq() -> u64 {
+    SEQ.with(|s| {
+        let v = s.get() + 1;
+        s.set(v);
+        v
+    })
+}
+
+/// Install (or remove) the event sink of the current thread.
+pub fn set_sink(sink: Option<Box<dyn FnMut(VerifEvent)>>) {
+    SINK.with(|s| *s.borrow_mut() = sink);
+}
+
+pub fn emit(ev: VerifEvent) {
+    SINK.with(|s| {
+        if let Some(sink) = s.borrow_mut().as_mut() {
+            sink(ev);
+        }
+    });
+}
+
+fn sink_installed() -> bool {
+    SINK.with(|s| s.borrow().is_some())
+}
+
+pub fn on_send(addr: &String, bytes: &[u8]) {
+    if sink_installed() {
+        emit(VerifEvent::Send {
+            seq: next_seq(),
+            addr: addr.clone(),
+            bytes: bytes.to_vec(),
+        });
+    }
+}
+
+pub fn on_recv_wait(addr: &String, buffered: usize) {
+    if sink_installed() {
+        emit(VerifEvent::RecvWait {
+            seq: next_seq(),
+            addr: addr.clone(),
+            buffered,
+        });
+    }
+}
+
+pub use crate::session::verif_hooks::*;
+
+use std::collections::HashMap;
+
+/// Outcome of one scripted announce: the reply body (parsed exactly like a real HTTP body) or a
+/// transport/HTTP error text.
+pub type TrackerOutcome = Result<Vec<u8>, String>;
+
+thread_local! {
+    static DIAL: RefCell<HashMap<String, DuplexStream>> = RefCell::new(HashMap::new());
+    static TRACKER: RefCell<Option<Box<dyn FnMut(u64) -> TrackerOutcome>>> = RefCell::new(None);
+    static TRACKER_CALLS: Cell<u64> = Cell::new(0);
+    static FAILPOINT: RefCell<Option<Box<dyn FnMut(&'static str) -> Option<u64>>>> = RefCell::new(None);
+}
+
+/// Register an in-memory endpoint: the next outgoing connection to `addr` gets `mem` instead of
+/// dialling TCP.
+pub fn register_dial(addr: &str, mem: DuplexStream) {
+    DIAL.with(|d| d.borrow_mut().insert(addr.to_string(), mem));
+}
+
+pub fn clear_dials() {
+    DIAL.with(|d| d.borrow_mut().clear());
+}
+
+pub fn dial(addr: &String) -> Option<DuplexStream> {
+    DIAL.with(|d| d.borrow_mut().remove(addr))
+}
+
+/// Script the tracker: `script(n)` gives the outcome of the n-th announce (0-based, counted over
+/// the whole thread). `None` restores the real HTTP client.
+pub fn script_tracker(script: Option<Box<dyn FnMut(u64) -> TrackerOutcome>>) {
+    TRACKER.with(|t| *t.borrow_mut() = script);
+    TRACKER_CALLS.with(|c| c.set(0));
+}
+
+/// Stand-in for `TrackerClient::run` used when a script is installed: same channel, same
+/// `Fail -> sleep 1 s -> retry` / `TrackerResp -> end` shape.
+pub fn scripted_tracker(
+    tx: tokio::sync::mpsc::Sender<TrackerCmd>,
+) -> Option<tokio::task::JoinHandle<()>> {
+    if TRACKER.with(|t| t.borrow().is_none()) {
+        return None;
+    }
+    Some(tokio::spawn(async move {
+        loop {
+            let n = TRACKER_CALLS.with(|c| {
+                let v = c.get();
+                c.set(v + 1);
+                v
+            });
+            let outcome = TRACKER.with(|t| match t.borrow_mut().as_mut() {
+                Some(script) => script(n),
+                None => Err("tracker script removed".to_string()),
+            });
+            let outcome = match outcome {
+                Ok(body) => crate::TrackerResp::from_bencode(&body).map_err(|e| e.to_string()),
+                Err(e) => Err(e),
+            };
+            match outcome {
+                Ok(resp) => {
+                    tx.send(TrackerCmd::TrackerResp(resp))
+                        .await
+                        .expect("Can't communicate to manager");
+                    break;
+                }
+                Err(e) => {
+                    tx.send(TrackerCmd::Fail(e))
+                        .await
+                        .expect("Can't communicate to manager");
+                    tokio::time::sleep(tokio::time::Duration::from_millis(1000)).await;
+                }
+            }
+        }
+    }))
+}
+
+/// Arm (or disarm) failpoints: the closure maps a failpoint name to `None` (continue),
+/// `Some(0)` (yield once) or `Some(ms)` (sleep `ms` of tokio time).
+pub fn set_failpoints(f: Option<Box<dyn FnMut(&'static str) -> Option<u64>>>) {
+    FAILPOINT.with(|p| *p.borrow_mut() = f);
+}
+
+/// Optional delay at an existing suspension point. No-op unless armed.
+pub async fn failpoint(name: &'static str) {
+    let delay = FAILPOINT.with(|p| match p.borrow_mut().as_mut() {
+        Some(f) => f(name),
+        None => None,
+    });
+    match delay {
+        None => (),
+        Some(0) => tokio::task::yield_now().await,
+        Some(ms) => tokio::time::sleep(tokio::time::Duration::from_millis(ms)).await,
+    }
+}
